@@ -1,1 +1,105 @@
-fn main() { println!("sim"); }
+mod checks;
+mod engine;
+mod framework;
+mod rng;
+
+use framework::*;
+
+fn usage() -> ! {
+    eprintln!("usage: sim check <ID> <quick|thorough> | sim replay <file>");
+    std::process::exit(2);
+}
+
+fn main() {
+    install_panic_hook();
+    let args: Vec<String> = std::env::args().collect();
+    if args.len() < 2 {
+        usage();
+    }
+    match args[1].as_str() {
+        "check" => {
+            if args.len() < 3 {
+                usage();
+            }
+            let id = args[2].as_str();
+            let tier = match args.get(3).map(|s| s.as_str()).or(std::env::var("VERIF_TIER").ok().as_deref()) {
+                Some("thorough") => Tier::Thorough,
+                Some("quick") | None => Tier::Quick,
+                Some(other) => {
+                    eprintln!("harness error: unknown tier {other}");
+                    std::process::exit(2);
+                }
+            };
+            let seed: u64 = match std::env::var("VERIF_SEED") {
+                Ok(s) => match s.trim().parse::<i64>() {
+                    Ok(v) => v as u64,
+                    Err(_) => {
+                        eprintln!("harness error: VERIF_SEED is not an integer: {s}");
+                        std::process::exit(2);
+                    }
+                },
+                Err(_) => 1,
+            };
+            println!("VERIF_SEED={seed} check={id} tier={}", tier.name());
+            let known = KnownFindings::load();
+            let t0 = std::time::Instant::now();
+            let report = match id {
+                "C03" => checks::c03::run(tier, seed, &known),
+                _ => {
+                    eprintln!("harness error: no check for {id}");
+                    std::process::exit(2);
+                }
+            };
+            let code = report.finish(t0.elapsed().as_secs_f64());
+            std::process::exit(code);
+        }
+        "replay" => {
+            if args.len() < 3 {
+                usage();
+            }
+            let text = match std::fs::read_to_string(&args[2]) {
+                Ok(t) => t,
+                Err(e) => {
+                    eprintln!("harness error: cannot read {}: {e}", args[2]);
+                    std::process::exit(2);
+                }
+            };
+            let file: ReplayFile = match serde_json::from_str(&text) {
+                Ok(f) => f,
+                Err(e) => {
+                    eprintln!("harness error: cannot parse {}: {e}", args[2]);
+                    std::process::exit(2);
+                }
+            };
+            let res = match file.world.as_str() {
+                "engine-programs" => replay_text(&checks::c03::C03World { real_conds: 0.0, loggers: false }, &text),
+                other => {
+                    eprintln!("harness error: unknown world {other}");
+                    std::process::exit(2);
+                }
+            };
+            match res {
+                Ok(Some(v)) => {
+                    println!("replay: violation class: {}", v.class);
+                    println!("replay: {}", v.message);
+                    if v == file.violation {
+                        println!("replay: reproduces the recorded violation exactly");
+                    } else {
+                        println!("replay: DIFFERS from the recorded violation: {:?}", file.violation);
+                    }
+                    println!("VIOLATION property={} replay={}", file.property, args[2]);
+                    std::process::exit(1);
+                }
+                Ok(None) => {
+                    println!("replay: no violation (the property holds on this case for the current tree)");
+                    std::process::exit(0);
+                }
+                Err(e) => {
+                    eprintln!("harness error: {e}");
+                    std::process::exit(2);
+                }
+            }
+        }
+        _ => usage(),
+    }
+}
